@@ -477,7 +477,7 @@ pub fn c17(tier: &str) -> ! {
         Some(s) => s,
         None => {
             if t {
-                2400
+                crate::report::scaled(Duration::from_secs(2400)).as_secs()
             } else {
                 45
             }
